@@ -65,6 +65,19 @@ run $S/C09c/patch.diff C09
 run $S/C10c/patch.diff C10
 run $S/C12c/patch.diff C12
 run $S/C13c/patch.diff C12 C13
+run $S/C04c/patch.diff C04 C09
+run $S/C06c/patch.diff C06
+run $S/C11c/patch.diff C11
+run $S/C14c/patch.diff C14
+run $S/C15c/patch.diff C15
+run $S/C16c/patch.diff C16
+run $S/C18c/patch.diff C18
+run $S/C19c/patch.diff C19
+run $S/C20c/patch.diff C20
+run $S/C17c/patch.diff C17
+run $S/C07d/patch.diff C07 C15
+run $S/C02d/patch.diff C03
+run $S/BC1r1/patch.diff C02 C01
 run $S/extra/m1-linkttl.diff C01
 run $S/extra/m2-cachekey-format.diff C12
 run $S/extra/m3-cacheadd-nolock.diff C14 C12
